@@ -376,7 +376,16 @@ func c17Main(rc *RunCtx) {
 		opt.Socks5 = "127.0.0.1:9"
 		rc.Cfg["socks5_set"] = true
 	}
-	u, err := upstream.NewUpstream("udp://"+srvAddr, opt)
+	urlAddr := srvAddr
+	if simrt.Choose(5) == 0 {
+		// dial_addr: the URL names one address, the user tells mosdns to dial
+		// another. Both legs belong to the dialed server ("retried over TCP to the
+		// same server"); nothing listens at the URL's address, on either protocol.
+		urlAddr = []string{"192.0.2.77", "192.0.2.77:5353", "dns.example.net"}[simrt.Choose(3)]
+		opt.DialAddr = srvAddr
+		rc.Cfg["dial_addr_set"] = urlAddr
+	}
+	u, err := upstream.NewUpstream("udp://"+urlAddr, opt)
 	if err != nil {
 		panic(err)
 	}
